@@ -121,8 +121,17 @@ def cmd_check(prop_id, tier):
         if spec.get("post"):
             extra = spec["post"](ctx, models, tier) or {}
     except AnalysisError as ex:
-        print("ERROR analysis failed: %s" % ex)
-        return 2
+        # fail closed: a tree the engine cannot enumerate is reported as a violation of the census, not as a crash
+        extra = {}
+        ctx.config = "default+tracing"
+        ctx.ob("CEN-H", "analysis-complete", False, "analysis incomplete, fail closed: %s" % ex)
+    except (KeyError, IndexError, TypeError, AttributeError, ValueError, RecursionError) as ex:
+        import traceback
+        tb = traceback.extract_tb(sys.exc_info()[2])[-1]
+        extra = {}
+        ctx.config = "default+tracing"
+        ctx.ob("CEN-H", "analysis-complete", False, "the rule engine met a shape it does not model (%s: %s at %s:%d), fail closed" % (
+            type(ex).__name__, str(ex)[:120], os.path.basename(tb.filename), tb.lineno))
     known, fixed = load_known()
     kn = known.get(prop_id, {})
     viol = []
